@@ -85,6 +85,22 @@ fn check_object(adf: &Adf, labels: &[String], conds: &[Fm], grounded: Option<&[u
                 }
             }
         }
+        if free.len() > 12 {
+            // too many assignments to enumerate: exact comparison with an independently built reference diagram
+            let mut rb = crate::refbdd::RefBdd::new();
+            let mut r = rb.compile(&conds[d], &|x| var_of_decl[x]);
+            if let Some(g) = grounded {
+                for x in &sup {
+                    if g[*x] != U {
+                        r = rb.restrict(r, var_of_decl[*x], g[*x] == T);
+                    }
+                }
+            }
+            if let Err(e) = crate::refbdd::same_function(&adf.bdd.nodes, h, &rb, r) {
+                out.push((format!("{}:wrong-function", what), format!("the diagram of statement {:?} is not the diagram of its condition ({} reference nodes): {}", labels[d], rb.size_from(r), e)));
+            }
+            continue;
+        }
         for a in 0..(1u64 << free.len()) {
             let val_decl = |x: usize| -> bool {
                 if let Some(g) = grounded {
@@ -122,6 +138,10 @@ fn check_object(adf: &Adf, labels: &[String], conds: &[Fm], grounded: Option<&[u
 
 /// one program through all pipelines and sortings
 pub fn program_case(labels: &[String], conds: &[Fm], text: &str, sorting: usize, grounded: &[u8]) -> Vec<(String, String)> {
+    program_case_sel(labels, conds, text, sorting, grounded, true)
+}
+
+pub fn program_case_sel(labels: &[String], conds: &[Fm], text: &str, sorting: usize, grounded: &[u8], native: bool) -> Vec<(String, String)> {
     let mut out = vec![];
     let parser = AdfParser::default();
     match guard(|| parser.parse()(text).is_ok()) {
@@ -139,9 +159,11 @@ pub fn program_case(labels: &[String], conds: &[Fm], text: &str, sorting: usize,
     }
     let sname = ["unsorted", "lexicographic", "alphanumeric"][sorting];
     adf_bdd::verif::set_budget(Some(5_000_000));
-    match guard(|| Adf::from_parser(&parser)) {
-        Ok(adf) => check_object(&adf, labels, conds, None, &format!("native[{}]", sname), &mut out),
-        Err(m) => out.push((format!("native[{}]:panic", sname), m)),
+    if native {
+        match guard(|| Adf::from_parser(&parser)) {
+            Ok(adf) => check_object(&adf, labels, conds, None, &format!("native[{}]", sname), &mut out),
+            Err(m) => out.push((format!("native[{}]:panic", sname), m)),
+        }
     }
     match guard(|| BdAdf::from_parser(&parser)) {
         Err(m) => out.push((format!("biodivine[{}]:panic", sname), m)),
@@ -225,6 +247,128 @@ pub fn run_c09(run: &Run) {
     }
     let l = large(4 + run.seed * 1000);
     run.sample(json!({"type": "large", "index": 4 + run.seed * 1000, "statements": l.labels.len(), "shape": l.shape, "text_prefix": l.text(None, ("", "", "")).chars().take(300).collect::<String>()}));
+    // ---- programs at scale (exact validation against an independent reference BDD, see refbdd.rs)
+    // (a) z = OR_i (x_i & y_i) with all x declared before all y: the diagram of z has 2^(m+1) nodes
+    // (b) a ladder of 300 statements: variable indices beyond 255 occur in conditions
+    let mut big: Vec<(String, Vec<String>, Vec<Fm>, Vec<u8>, bool)> = vec![];
+    for m in if quick { vec![10usize, 16] } else { vec![10, 14, 16, 17] } {
+        let n = 2 * m + 1;
+        let mut labels: Vec<String> = (0..m).map(|i| format!("x{}", i)).collect();
+        labels.extend((0..m).map(|i| format!("y{}", i)));
+        labels.push("z".into());
+        let mut conds: Vec<Fm> = (0..2 * m).map(Fm::Atom).collect();
+        let mut f = Fm::bin(0, Fm::Atom(0), Fm::Atom(m));
+        for i in 1..m {
+            f = Fm::bin(1, f, Fm::bin(0, Fm::Atom(i), Fm::Atom(m + i)));
+        }
+        conds.push(f);
+        // native compilation of the widest instances takes minutes (the documented weakness of the naive algorithm):
+        // they are validated through the bridge only
+        big.push((format!("OR of {} products, bad order ({} statements)", m, n), labels, conds, vec![U; n], m <= 10));
+    }
+    {
+        let n = 300usize;
+        let labels: Vec<String> = (0..n).map(|i| format!("n{}", i)).collect();
+        let mut conds = vec![];
+        for i in 0..n {
+            let (p, q, r) = (Fm::Atom((i + n - 1) % n), Fm::Atom((i + 7) % n), Fm::Atom((i + 150) % n));
+            conds.push(match i % 5 {
+                0 => Fm::bin(0, p, Fm::bin(1, q, Fm::not(r))),
+                1 => Fm::bin(4, q, r),
+                2 => Fm::bin(2, r, Fm::bin(3, p, q)),
+                3 => Fm::not(Fm::bin(1, p, r)),
+                _ => Fm::bin(1, Fm::bin(0, p.clone(), q), Fm::bin(0, Fm::not(p), r)),
+            });
+        }
+        let l = LargeAdf { labels: labels.clone(), written: labels.clone(), conds: conds.clone(), shape: "ladder300" };
+        let g = l.grounded();
+        big.push(("ladder of 300 statements".into(), labels, conds, g, true));
+    }
+    let res = run.par_family(
+        &format!("programs at scale: {} (exact comparison with a reference BDD)", big.len()),
+        big.len() as u64,
+        || 0u64,
+        |st, k| {
+            let (name, labels, conds, g, native) = &big[k as usize];
+            let l = LargeAdf { labels: labels.clone(), written: labels.clone(), conds: conds.clone(), shape: "big" };
+            let text = l.text(None, ("\n", "", ""));
+            *st += 1;
+            run.heartbeat();
+            for (kind, msg) in program_case_sel(labels, conds, &text, 0, g, *native) {
+                run.violation(&kind, format!("{} on program '{}'", msg, name), json!({"type": "big", "index": k}));
+            }
+        },
+        &|k| json!({"type": "big", "index": k}),
+    );
+    for st in res {
+        run.add_counts(st, st * 4, st, st);
+    }
+    // (c) labels whose concatenation with the separators of the syntax is ambiguous: two different conditions that
+    // read alike once quotes are dropped, e.g. and("a,b",c) and and(a,"b,c")
+    {
+        let toks = ["a", "b", ",", "(", ")", " "];
+        let mut labs: Vec<String> = vec![];
+        for x in toks {
+            labs.push(x.to_string());
+            for y in toks {
+                labs.push(format!("{}{}", x, y));
+                for z in toks {
+                    labs.push(format!("{}{}{}", x, y, z));
+                }
+            }
+        }
+        labs.sort();
+        labs.dedup();
+        // all pairs of label pairs with the same comma-joined reading
+        let mut joined: std::collections::BTreeMap<String, Vec<(usize, usize)>> = Default::default();
+        for (i, x) in labs.iter().enumerate() {
+            for (j, y) in labs.iter().enumerate() {
+                if i != j {
+                    joined.entry(format!("{},{}", x, y)).or_default().push((i, j));
+                }
+            }
+        }
+        let mut progs: Vec<Vec<usize>> = vec![];
+        for (_, v) in joined {
+            for a in 0..v.len() {
+                for b in a + 1..v.len() {
+                    let set: BTreeSet<usize> = [v[a].0, v[a].1, v[b].0, v[b].1].into_iter().collect();
+                    if set.len() == 4 {
+                        progs.push(vec![v[a].0, v[a].1, v[b].0, v[b].1]);
+                    }
+                }
+            }
+        }
+        let stride = if quick { (progs.len() / 400).max(1) } else { 1 };
+        let chosen: Vec<Vec<usize>> = progs.iter().skip((run.seed as usize) % stride).step_by(stride).cloned().collect();
+        let res = run.par_family(
+            &format!("ambiguous-looking label pairs: {} programs of {} (two conditions that read alike without quotes)", chosen.len(), progs.len()),
+            chosen.len() as u64,
+            || 0u64,
+            |st, k| {
+                let q = &chosen[k as usize];
+                let mut labels: Vec<String> = q.iter().map(|i| labs[*i].clone()).collect();
+                labels.push("p".into());
+                labels.push("q".into());
+                let written: Vec<String> = labels.iter().map(|l| if l.chars().all(|c| c.is_ascii_alphanumeric()) { l.clone() } else { format!("\"{}\"", l) }).collect();
+                for op in [0usize, 4] {
+                    let mut conds: Vec<Fm> = (0..4).map(|i| if i % 2 == 0 { Fm::Atom(i) } else { Fm::not(Fm::Atom(i)) }).collect();
+                    conds.push(Fm::bin(op, Fm::Atom(0), Fm::Atom(1)));
+                    conds.push(Fm::bin(op, Fm::Atom(2), Fm::Atom(3)));
+                    let l = LargeAdf { labels: labels.clone(), written: written.clone(), conds: conds.clone(), shape: "ambiguous" };
+                    let text = l.text(None, ("", "", ""));
+                    *st += 1;
+                    for (kind, msg) in program_case(&labels, &conds, &text, 0, &l.grounded()) {
+                        run.violation(&kind, format!("{} on {}", msg, text), json!({"type": "ambiguous", "text": text, "labels": labels}));
+                    }
+                }
+            },
+            &|k| json!({"type": "ambiguous", "index": k}),
+        );
+        for st in res {
+            run.add_counts(st, st * 4, st, 0);
+        }
+    }
     // labels with characters biodivine reserves (known finding K2): native must work, the bridge is recorded
     let reserved = ["a (", "x&y", "p|q", "n!", "e=f", "l<r", "q?", "k:v", "u^v", "g>h", "r)", "b_", "_62_", "a_20_b", "_"];
     for (i, lab) in reserved.iter().enumerate() {
